@@ -73,15 +73,35 @@ def random_cases(ctx, count):
             y = [r.randint(0, k - 1) for _ in range(n)]
         w4 = [] if r.random() < 0.4 else [r.choice([1, 2, 3, 4, 4, 6, 8]) for _ in range(n)]
         mws4, mwl4, mid6 = r.choice(PROFILES[1:])
-        ks = len(set(y))
         lt = r.choice(["usize", "string"] + (["bool"] if max(y) <= 1 else []))
         out.append({"kind": "tree", "inp": {
             "x": x, "y": y, "w4": w4, "d": d, "crit": r.choice(["gini", "entropy"]),
             "md": r.choice([-1, -1, 1, 2, 3, 5]), "mws4": mws4, "mwl4": mwl4, "mid6": mid6,
             "lt": lt, "ft": r.choice(["f64", "f32"]),
             "scale": {"off": 0, "mul": 1, "pm": 1, "plo": -1, "phi": (2 * maxv + 1) if d < 3 else 3}}})
-        del ks
     return out
+
+
+def mc_design(ctx, consts):
+    """(A) as vlib.tlc_mc, but the vacuity test reads the LAST coverage report: runs longer than a minute
+    print interim reports in which an action may not have been taken yet."""
+    import re
+    rc, lines = vlib.tlc(ctx, "DTree", {"constants": consts, "invariants": INVS}, extra=["-coverage", "1", "-nowarning"])
+    if rc != 0:
+        vlib.sys.stderr.write("\n".join(lines[-60:]) + "\n")
+        raise vlib.ToolError("design model DTree: TLC rc=%d" % rc)
+    gen, dist = vlib.parse_states(lines)
+    if dist == 0:
+        raise vlib.ToolError("design model DTree: no states")
+    text = "\n".join(lines)
+    for a in ACTIONS:
+        ms = re.findall(r"<%s line [^>]*>: (\d+):(\d+)" % re.escape(a), text)
+        if not ms or int(ms[-1][1]) == 0:
+            raise vlib.ToolError("design model DTree: action %s never taken (vacuous)" % a)
+    ctx.states += dist
+    ctx.transitions += gen
+    ctx.mc_runs.append({"module": "DTree", "distinct_states": dist, "states_generated": gen, "constants": consts})
+    vlib.log("MC DTree: %d distinct states, %d generated" % (dist, gen))
 
 
 def splits(trace):
@@ -121,7 +141,7 @@ def run(ctx):
     # the ln table of the entropy criterion is self-checked (against the atanh series, ln(ab) = ln a + ln b and Elem.LnInt)
     vlib.tlc_mc(ctx, "MC_DTreeLn", {"invariants": LN_INVS}, workers=2)
     for consts in MODEL[ctx.tier]:
-        vlib.tlc_mc(ctx, "DTree", {"constants": consts, "invariants": INVS}, coverage_actions=ACTIONS)
+        mc_design(ctx, consts)
     cases = generate(ctx)
     vlib.number(cases)
     ctx.cases = len(cases)
